@@ -12,6 +12,10 @@ Seams (all real code, nothing re-implemented):
   auxiliary requests are answered by the transport according to an "aux mode"; only POSTs to
   ``{prefix}/{method}/exchange`` are the scripted/counted requests.
 
+* part C — real typed proxy calls (``http_connect(...).echo()`` unary, ``.produce()`` stream init) over the same
+  scripted transport: a call may consist of up to three retried requests (original, one re-encode after a 415
+  that names the server codecs, one externalised re-send after a 413); each obeys (i)-(ii).
+
 The fault sequence is enumerated *lazily*: a run that asks for an outcome beyond the scripted prefix is aborted
 (``NeedMore``), judged at that very moment (was this additional send allowed?) and — if allowed — the prefix is
 extended by every symbol of the alphabet.  Behaviour can only depend on consumed outcomes, so this covers every
@@ -54,9 +58,10 @@ RULE = (
     "config grid (max_retries 0..1 quick / 0..2 thorough x retry_on_connection_error x respect_retry_after x "
     "backoff_base {0,.5} x backoff_max {0,1,30} + custom retryable sets + config=None) x jitter {lo,hi,mid} x "
     "lazily extended outcome sequences (length <= max_retries+2): sweep D = every sequence over 23 exception "
-    "kinds + retryable statuses x 19 Retry-After forms + representative final statuses; sweep W = every status "
+    "kinds + retryable statuses x 17 Retry-After forms (+3 header-container variants) + representative final statuses; sweep W = every status "
     "200..599 (x Retry-After {absent,nan,7}) at every position after representative retryable prefixes; part B = "
     "programs of <=2 ops over {exchange,cancel,next} x retry configs x 413-fallback aux modes x outcome sequences; "
+    "part C = typed-proxy unary call / stream init x retry configs x aux modes x outcome sequences (3 phases); "
     "non-trivial = the retry/resend decision code was reached (>=1 retry-eligible outcome, or >=1 session POST); "
     "distinct key = sequence of outcome classes + how the call ended"
 )
@@ -308,11 +313,18 @@ def make_response(sym: list[Any], body: bytes = b"upstream says no") -> Any:
     return r
 
 
+RA_CLASS = {
+    "absent": "absent", "2": "finite", "0": "finite", "7": "finite", "0.25": "finite", "padded": "finite", "-1": "negative",
+    "-inf": "negative", "nan": "nan", "inf": "infinite", "1e999": "infinite", "huge": "infinite", "future-date": "http-date",
+    "past-date": "http-date", "naive-date": "http-date", "garbage": "unparseable", "empty": "unparseable",
+}
+
+
 def check_waits(ctx: Ctx, where: str, sleeps: list[Any], consumed: list[list[Any]], cfg: dict[str, Any], rep: Any) -> None:
     bmax = 0.0 if cfg.get("none") else float(cfg["max"])
     for i, s in enumerate(sleeps):
         prev = consumed[min(i, len(consumed) - 1)] if consumed else ["x", "none"]
-        ra = prev[2] if prev[0] == "s" else "no-header"
+        ra = RA_CLASS[prev[2]] if prev[0] == "s" else "no-header"
         bad = None
         if isinstance(s, bool) or not isinstance(s, (int, float)):
             bad = "not-a-number"
@@ -659,6 +671,8 @@ def alphabet_b(thorough: bool) -> list[list[Any]]:
             out.append(["s", c, "absent", "httpx", body])
     out.append(["s", 503, "7", "httpx", "garbage"])
     out.append(["s", 413, "nan", "httpx", "empty"])
+    out.append(["s", 500, "absent", "httpx", "empty"])
+    out.append(["s", 200, "absent", "httpx", "empty"])
     return out
 
 
@@ -794,6 +808,193 @@ def items_b(ctx: Ctx) -> Any:
 
 
 # ----------------------------------------------------------------------------------------------------------------
+# part C: the typed proxy (unary call / stream init) — three retried phases at most
+# ----------------------------------------------------------------------------------------------------------------
+
+_C: dict[str, Any] = {}
+
+
+def c_fixtures() -> dict[str, Any]:
+    """Genuine response bodies for echo() / produce() captured once from a real in-process server."""
+    if _C:
+        return _C
+    import json as _json
+
+    from vgi_rpc.http import http_connect
+    from vgi_rpc.http._testing import make_sync_client
+    from vgi_rpc.rpc import RpcServer
+
+    from vf.kit import prog
+
+    inner = make_sync_client(RpcServer(prog.ScriptSvc, prog.ScriptImpl()), token_key=b"k" * 32, compression_level=None)
+    got: dict[str, bytes] = {}
+
+    class Rec:
+        prefix = ""
+
+        def post(self, url: str, *, content: bytes, headers: dict[str, str]) -> Any:
+            r = inner.post(url, content=content, headers=headers)
+            got[url] = bytes(r.content)
+            return r
+
+    script = _json.dumps({"steps": [[["emit", 2, None]], [["emit", 1, None]]]})
+    with http_connect(prog.ScriptSvc, client=Rec(), compression_level=None) as px:  # type: ignore[arg-type]
+        assert px.echo(n=3) == 3
+        px.produce(script=script)
+    _C.update(proto=prog.ScriptSvc, script=script, ok={"unary": got["/echo"], "init": got["/produce/init"]})
+    return _C
+
+
+C_ALPHA_WIDE = (
+    [sym_exc(n) for n in B_EXC]
+    + [["s", c, "absent", "httpx", body] for c in (200, 400, 401, 413, 415, 429, 500, 502, 503, 504) for body in ("ok", "garbage")]
+    + [["s", 415, "absent", "httpx", "garbage", "gzip"], ["s", 415, "absent", "httpx", "garbage", ""], ["s", 503, "7", "httpx", "garbage"]]
+    + [["s", 500, "absent", "httpx", "empty"], ["s", 502, "absent", "httpx", "empty"]]
+)
+C_ALPHA_NARROW = (
+    [sym_exc(n) for n in ("connect", "read-timeout", "disconnect", "rpe-body")]
+    + [["s", 200, "absent", "httpx", "ok"], ["s", 400, "absent", "httpx", "garbage"], ["s", 413, "absent", "httpx", "garbage"]]
+    + [["s", 415, "absent", "httpx", "garbage", "gzip"], ["s", 415, "absent", "httpx", "garbage"], ["s", 500, "absent", "httpx", "garbage"]]
+    + [["s", 503, "absent", "httpx", "garbage"], ["s", 429, "7", "httpx", "garbage"], ["s", 500, "absent", "httpx", "empty"]]
+)
+
+
+def allowed_next_c(sends: list[list[Any]], cfg: dict[str, Any]) -> tuple[bool, str]:
+    """A typed call is at most three retried requests: the original, one re-encode after a 415 that named the
+    server's codecs, one externalised re-send after a 413.  Within each the retry-helper rules hold."""
+    phase_len = 0
+    used415 = used413 = False
+    budget = cfg_budget(cfg)
+    for i in range(len(sends) + 1):
+        if i == 0:
+            phase_len = 1
+            continue
+        prev = sends[i - 1]
+        if justified(prev, cfg):
+            if phase_len < budget:
+                phase_len += 1
+                continue
+            return False, f"call:sends>max_retries+1:after-{klass(prev, cfg)}"
+        if prev[0] == "s" and prev[1] == 415 and not used415:
+            used415 = True
+            phase_len = 1
+            continue
+        if prev[0] == "s" and prev[1] == 413 and not used413:
+            used413 = True
+            phase_len = 1
+            continue
+        return False, "call:resend-after:" + resend_key(prev, cfg)
+    return True, ""
+
+
+def run_c(p: dict[str, Any], seq: list[list[Any]]) -> dict[str, Any]:
+    import httpx2
+
+    from vgi_rpc.http import _retry as R
+    from vgi_rpc.http import http_connect
+
+    fx = c_fixtures()
+    op = p["op"]
+    bodies = dict(b_fixtures()["bodies"])
+    bodies["ok"] = fx["ok"][op]
+    suffix = "/p/echo" if op == "unary" else "/p/produce/init"
+
+    class T(_scripted_transport_cls()):  # type: ignore[misc]
+        def handle_request(self, request: Any) -> Any:
+            resp = super().handle_request(request)
+            sym = self.op_sends[-1] if self.op_sends else None
+            if sym is not None and len(sym) > 5 and request.url.path.endswith(suffix) and resp.status_code == 415:
+                resp.headers["VGI-Supported-Encodings"] = sym[5]
+            return resp
+
+    transport = T(seq, suffix, aux=p["aux"], bodies=bodies)
+    client = httpx2.Client(base_url="http://t.invalid", transport=transport)
+    sleeps: list[Any] = []
+    old_random = R.random
+    olds = {f: dict(f.__kwdefaults__) for f in (R._post_with_retry, R._options_with_retry, R._request_with_retry)}
+    R.random = FakeRandom("hi")  # type: ignore[assignment]
+    for f in olds:
+        f.__kwdefaults__["_sleep"] = sleeps.append
+    rec: dict[str, Any] = {"need_more": False, "end": None, "exc": None}
+    try:
+        with http_connect(fx["proto"], client=client, prefix="/p", retry=make_config(p["cfg"]), compression_level=p["clevel"]) as px:
+            if op == "unary":
+                px.echo(n=3)
+            else:
+                px.produce(script=fx["script"])
+        rec["end"] = "return"
+    except NeedMore:
+        rec["need_more"] = True
+    except Exception as e:  # noqa: BLE001
+        rec["end"] = "raise:" + type(e).__name__
+        rec["exc"] = e
+    finally:
+        R.random = old_random  # type: ignore[assignment]
+        for f, d in olds.items():
+            f.__kwdefaults__.clear()
+            f.__kwdefaults__.update(d)
+        client.close()
+    rec.update(consumed=list(transport.op_sends), sleeps=sleeps, aux=transport.aux_log)
+    return rec
+
+
+def eval_c(ctx: Ctx, p: dict[str, Any], seq: list[list[Any]]) -> str:
+    from vgi_rpc.rpc import RpcError
+
+    cfg = p["cfg"]
+    rec = run_c(p, seq)
+    rep = {"part": "C", "p": p, "seq": seq}
+    consumed = rec["consumed"]
+    check_waits(ctx, "call:", rec["sleeps"], seq, cfg, rep)
+    classes = [klass(s_, cfg) + (":%d" % s_[1] if s_[0] == "s" and s_[1] in (413, 415) else "") for s_ in consumed]
+    if rec["need_more"]:
+        ok, key = allowed_next_c(consumed, cfg)
+        if not ok:
+            ctx.fail(key, f"{p['op']} call through the typed proxy POSTed again after {consumed} (config {cfg}, aux {p['aux']}, client compression {p['clevel']})", rep)
+            ctx.case(nontrivial="C!" + ">".join(classes), outcome=("viol", tuple(classes)))
+            return "pruned"
+        return "expand"
+    e = rec["exc"]
+    if e is not None:
+        last = consumed[-1] if consumed else None
+        injected = last is not None and last[0] == "x" and type(e) is type(make_exc(last[1]))
+        if not injected and not isinstance(e, RpcError):
+            ctx.fail(f"call-crash:{p['op']}:{type(e).__name__}", f"{p['op']} call raised {e!r} on {seq} (config {cfg}, aux {p['aux']})", rep)
+    ctx.extra["proxy_posts"] += len(consumed)
+    ctx.extra["aux_requests"] += len(rec["aux"])
+    ctx.extra["max_call_posts"] = max(ctx.extra["max_call_posts"], len(consumed))
+    shape = ">".join(classes) + ":" + str(rec["end"])
+    sample = None
+    if len(consumed) >= 3 and ctx.evaluations % 2003 == 0:
+        sample = {"part": "C", "op": p["op"], "cfg": cfg, "aux": p["aux"], "seq": consumed, "end": rec["end"]}
+    ctx.case(sample=sample, nontrivial="C:" + p["op"] + ":" + shape, outcome=("C", p["op"], shape, len(rec["aux"])))
+    return "leaf"
+
+
+def dfs_c(ctx: Ctx, p: dict[str, Any], seq: list[list[Any]], alpha: list[list[Any]]) -> None:
+    if eval_c(ctx, p, seq) != "expand":
+        return
+    for sym in alpha:
+        dfs_c(ctx, p, seq + [sym], alpha)
+
+
+def items_c(ctx: Ctx) -> Any:
+    z = {"roce": True, "rra": True, "base": 0.5, "max": 30.0, "codes": None}
+    plans: list[tuple[dict[str, Any], list[list[Any]]]] = [({"none": True}, C_ALPHA_WIDE), (dict(z, mr=0), C_ALPHA_WIDE), (dict(z, mr=1), C_ALPHA_NARROW)]
+    if ctx.thorough:
+        plans += [(dict(z, mr=1, roce=False), C_ALPHA_NARROW), (dict(z, mr=2), C_ALPHA_NARROW[:2] + C_ALPHA_NARROW[4:5] + C_ALPHA_NARROW[6:8] + C_ALPHA_NARROW[10:11])]
+    for op in ("unary", "init"):
+        for cfg, alpha in plans:
+            for aux in ("ok", "nosupport") if ctx.quick else ("ok", "nosupport", "options503", "put500"):
+                for clevel in (1, None):
+                    if clevel is None and (aux != "ok" or cfg.get("mr", 0) > 1):
+                        continue
+                    p = {"cfg": cfg, "op": op, "aux": aux, "clevel": clevel}
+                    for s_ in alpha:
+                        yield p, s_, alpha
+
+
+# ----------------------------------------------------------------------------------------------------------------
 
 
 def run(ctx: Ctx) -> None:
@@ -810,6 +1011,8 @@ def run(ctx: Ctx) -> None:
             "session_posts": 0,
             "aux_requests": 0,
             "exchange_413_resends": 0,
+            "proxy_posts": 0,
+            "max_call_posts": 0,
             "configs": 0,
         }
     )
@@ -834,13 +1037,14 @@ def run(ctx: Ctx) -> None:
         if not ctx.mine():
             continue
         dfs_b(ctx, p, [first], alpha)
+    for p, first, alpha in items_c(ctx):
+        if not ctx.mine():
+            continue
+        dfs_c(ctx, p, [first], alpha)
     if ctx.shard[0] == 0:
         ctx.extra["configs"] = len(configs_a(ctx))
 
 
 def replay(ctx: Ctx, case: dict[str, Any]) -> None:
-    ctx.extra.update({k: 0 for k in ("uniform_calls", "trailing_sleeps", "max_sends", "sends", "waits_checked", "session_posts", "aux_requests", "exchange_413_resends")})
-    if case["part"] == "A":
-        eval_a(ctx, case["p"], case["seq"])
-    else:
-        eval_b(ctx, case["p"], case["seq"])
+    ctx.extra.update({k: 0 for k in ("uniform_calls", "trailing_sleeps", "max_sends", "sends", "waits_checked", "session_posts", "aux_requests", "exchange_413_resends", "proxy_posts", "max_call_posts")})
+    {"A": eval_a, "B": eval_b, "C": eval_c}[case["part"]](ctx, case["p"], case["seq"])
